@@ -29,6 +29,7 @@ EXPLANATION = (
     "requirement of every visited arg and continues through requirements that themselves require something (transitive). R3.9 relation setters of Arg/ArgGroup only ever add to the relation vectors; start_custom_arg records an argument's groups exactly on the is_explicit(source) edge. NOT decided: correctness of the required graph and "
     "group unrolling on arbitrary graphs."
     ' R3.4 (added): the two direction tests of gather_conflicts run for every other present id (only the pair (arg, arg) is skipped). R3.9 (added): nobody but the declared setters of Arg/ArgGroup mutates a relation vector.'
+    ' R3.4 (form-independent): ArgGroup::conflicts is read unconditionally — neither under an `if !multiple` nor behind a `.filter(!multiple)`.'
 )
 TRUSTED = ["rustc MIR", "clapfacts"]
 ASSUMPTIONS = ["FlatMap iteration yields every entry once"]
